@@ -59,6 +59,26 @@ func genC18(t *rapid.T) *CaseC18 {
 	for i := 0; i < n; i++ {
 		c.Pts = append(c.Pts, genPt(t, "p", 20, 25))
 	}
+	if rapid.IntRange(0, 11).Draw(t, "prism") == 0 {
+		// the layout of the library's own vertex lists: a ring of k positions, then the same ring again at other
+		// altitudes (flat or sloped floor / roof)
+		k := rapid.SampledFrom([]int{2, 3, 4, 4, 4, 5}).Draw(t, "ring")
+		var ring []Pt
+		for i := 0; i < k; i++ {
+			ring = append(ring, genPt(t, "rp", 20, 25))
+		}
+		floor := rapid.Float64Range(-100, 100).Draw(t, "floor")
+		c.Pts = nil
+		for level := 0; level < 2; level++ {
+			for i, p := range ring {
+				alt := floor + float64(level)*rapid.Float64Range(0.5, 50).Draw(t, "height")
+				if rapid.Bool().Draw(t, "slope") {
+					alt += float64(i) * 1.25
+				}
+				c.Pts = append(c.Pts, Pt{p.Lon, p.Lat, F64(alt)})
+			}
+		}
+	}
 	return c
 }
 
